@@ -366,10 +366,12 @@ func (gs GenesisState) ValidateSlashStates(operators, avs map[string]struct{}) e
 				slash,
 			)
 		}
-		if slash.Info.SlashProportion.IsNil() || slash.Info.SlashProportion.LTE(sdkmath.LegacyNewDec(0)) {
+		// a slash with proportion zero (a slash fraction parameter of zero) is accepted and
+		// recorded by the keeper, see CheckSlashParameter
+		if slash.Info.SlashProportion.IsNil() || slash.Info.SlashProportion.IsNegative() {
 			return errorsmod.Wrapf(
 				ErrInvalidGenesisData,
-				"invalid slash proportion, it's nil, zero, or negative: %+v",
+				"invalid slash proportion, it's nil or negative: %+v",
 				slash,
 			)
 		}
